@@ -235,6 +235,11 @@ func dynCallOfField(i ssa.Instruction) (string, bool) {
 	if !ok {
 		return "", false
 	}
+	// the callback field is recognised by its type (the exported callback type of package transactions),
+	// not by the name of the unexported field holding it
+	if typeIs(derefType(fa.Type()), pkTrans, "RTRetryCallback") {
+		return "retry-callback", true
+	}
 	return fieldName(fa.X.Type(), fa.Field), true
 }
 
@@ -810,7 +815,11 @@ func checkC18(c *Ctx, r *Report) {
 	// R3: locksets of timer/state fields
 	type fld struct{ typ, pkg string }
 	var targets [][2]string
-	for _, tn := range [][2]string{{pkTrans, "RetryTransaction"}, {pkTrans, "TimedTransaction"}, {pkClient, "sleepTransaction"}} {
+	txTypes := [][2]string{{pkTrans, "RetryTransaction"}, {pkTrans, "TimedTransaction"}}
+	for _, n := range c.handRolledTransactions("client") {
+		txTypes = append(txTypes, [2]string{pkClient, n})
+	}
+	for _, tn := range txTypes {
 		for _, f := range structFieldNames(c, tn[0], tn[1]) {
 			if f.Embedded() {
 				continue
@@ -1436,4 +1445,43 @@ func checkC19(c *Ctx, r *Report) {
 				"a path through NewTimedTransaction returns without arming the timer: for that timeout value an uncompleted transaction never fails with ErrTimeout (or fails without a timer that later completions still dereference)")
 		}
 	}
+}
+
+// handRolledTransactions: struct types of package rel that embed
+// *transactions.TransactionBase directly (they drive their own timers and
+// state instead of building on RetryTransaction / TimedTransaction) and own a
+// *time.Timer; today the client's sleep transaction.
+func (c *Ctx) handRolledTransactions(rel string) []string {
+	var out []string
+	p := c.ByPath[modPath+"/"+rel]
+	if p == nil {
+		return nil
+	}
+	scope := p.Types.Scope()
+	for _, n := range scope.Names() {
+		tn, ok := scope.Lookup(n).(*types.TypeName)
+		if !ok {
+			continue
+		}
+		st, ok := tn.Type().Underlying().(*types.Struct)
+		if !ok {
+			continue
+		}
+		base, timer := false, false
+		for k := 0; k < st.NumFields(); k++ {
+			f := st.Field(k)
+			if f.Embedded() && typeIs(derefType(f.Type()), pkTrans, "TransactionBase") {
+				base = true
+			}
+			if typeIs(derefType(f.Type()), "time", "Timer") {
+				timer = true
+			}
+		}
+		// its own timers are what makes its fields shared between goroutines (timer callbacks vs. receive loop / API caller)
+		if base && timer {
+			out = append(out, tn.Name())
+		}
+	}
+	sort.Strings(out)
+	return out
 }
